@@ -1,0 +1,187 @@
+//go:build verif
+
+package act
+
+// Verification-only exports (build tag "verif"): give an external harness access to the
+// supervisor restart state machines and to supCheckRestartIntensity. Add-only; nothing
+// here is compiled into a normal build.
+
+import (
+	"fmt"
+
+	"ergo.services/ergo/gen"
+)
+
+// VerifCheckRestartIntensity calls supCheckRestartIntensity.
+func VerifCheckRestartIntensity(restarts []int64, period int, intensity int) ([]int64, bool) {
+	return supCheckRestartIntensity(restarts, period, intensity)
+}
+
+// VerifAction is a supAction rendered with exported fields. The unexported spec is kept
+// so that the action can be handed back to ChildStarted exactly as handleAction does.
+type VerifAction struct {
+	Do        int
+	SpecName  gen.Atom
+	SpecI     int
+	Register  bool
+	Terminate []gen.PID
+	Reason    error
+
+	spec supChildSpec
+}
+
+type VerifChild struct {
+	Name        gen.Atom
+	I           int
+	PID         gen.PID
+	Disabled    bool
+	Significant bool
+}
+
+type VerifSupState struct {
+	Kind           string // "ofo", "arfo", "sofo"
+	Spec           []VerifChild
+	Pids           []VerifChild // sofo only: running dynamic children
+	Mode           int
+	Shutdown       bool
+	ShutdownReason error
+	Wait           []gen.PID
+	Restarts       []int64
+	RestartI       int
+}
+
+type VerifSup struct {
+	b supBehavior
+}
+
+func VerifNewSup(t SupervisorType) *VerifSup {
+	switch t {
+	case SupervisorTypeOneForOne:
+		return &VerifSup{b: createSupOneForOne()}
+	case SupervisorTypeAllForOne, SupervisorTypeRestForOne:
+		return &VerifSup{b: createSupAllRestForOne()}
+	case SupervisorTypeSimpleOneForOne:
+		return &VerifSup{b: createSupSimpleOneForOne()}
+	}
+	return nil
+}
+
+func verifAction(a supAction) VerifAction {
+	return VerifAction{
+		Do:        int(a.do),
+		SpecName:  a.spec.Name,
+		SpecI:     a.spec.i,
+		Register:  a.spec.register,
+		Terminate: a.terminate,
+		Reason:    a.reason,
+		spec:      a.spec,
+	}
+}
+
+func verifGuard(panicked *string) {
+	if r := recover(); r != nil {
+		*panicked = fmt.Sprint(r)
+	}
+}
+
+func (v *VerifSup) Init(spec SupervisorSpec) (a VerifAction, err error, panicked string) {
+	defer verifGuard(&panicked)
+	x, e := v.b.init(spec)
+	return verifAction(x), e, ""
+}
+
+func (v *VerifSup) ChildAddSpec(spec SupervisorChildSpec) (a VerifAction, err error, panicked string) {
+	defer verifGuard(&panicked)
+	x, e := v.b.childAddSpec(spec)
+	return verifAction(x), e, ""
+}
+
+func (v *VerifSup) ChildSpec(name gen.Atom) (a VerifAction, err error, panicked string) {
+	defer verifGuard(&panicked)
+	x, e := v.b.childSpec(name)
+	return verifAction(x), e, ""
+}
+
+// ChildStarted hands the spec of a start action back together with the new pid.
+func (v *VerifSup) ChildStarted(start VerifAction, pid gen.PID) (a VerifAction, panicked string) {
+	defer verifGuard(&panicked)
+	return verifAction(v.b.childStarted(start.spec, pid)), ""
+}
+
+func (v *VerifSup) ChildTerminated(name gen.Atom, pid gen.PID, reason error) (a VerifAction, panicked string) {
+	defer verifGuard(&panicked)
+	return verifAction(v.b.childTerminated(name, pid, reason)), ""
+}
+
+func (v *VerifSup) ChildEnable(name gen.Atom) (a VerifAction, err error, panicked string) {
+	defer verifGuard(&panicked)
+	x, e := v.b.childEnable(name)
+	return verifAction(x), e, ""
+}
+
+func (v *VerifSup) ChildDisable(name gen.Atom) (a VerifAction, err error, panicked string) {
+	defer verifGuard(&panicked)
+	x, e := v.b.childDisable(name)
+	return verifAction(x), e, ""
+}
+
+func (v *VerifSup) Children() []SupervisorChild {
+	return v.b.children()
+}
+
+// ShiftRestarts moves every recorded restart timestamp d milliseconds into the past,
+// which is indistinguishable from the wall clock advancing by d.
+func (v *VerifSup) ShiftRestarts(d int64) {
+	var r []int64
+	switch s := v.b.(type) {
+	case *supOFO:
+		r = s.restarts
+	case *supARFO:
+		r = s.restarts
+	case *supSOFO:
+		r = s.restarts
+	}
+	for i := range r {
+		r[i] -= d
+	}
+}
+
+func verifChildren(spec []*supChildSpec) []VerifChild {
+	var out []VerifChild
+	for _, cs := range spec {
+		out = append(out, VerifChild{cs.Name, cs.i, cs.pid, cs.disabled, cs.Significant})
+	}
+	return out
+}
+
+func verifWait(w map[gen.PID]bool) []gen.PID {
+	var out []gen.PID
+	for pid := range w {
+		out = append(out, pid)
+	}
+	return out
+}
+
+func (v *VerifSup) State() VerifSupState {
+	switch s := v.b.(type) {
+	case *supOFO:
+		return VerifSupState{Kind: "ofo", Spec: verifChildren(s.spec), Mode: s.mode,
+			Shutdown: s.shutdown, ShutdownReason: s.shutdownReason,
+			Wait: verifWait(s.wait), Restarts: append([]int64{}, s.restarts...)}
+	case *supARFO:
+		return VerifSupState{Kind: "arfo", Spec: verifChildren(s.spec), Mode: s.mode,
+			Shutdown: s.mode == 3, ShutdownReason: s.shutdownReason,
+			Wait: verifWait(s.wait), Restarts: append([]int64{}, s.restarts...), RestartI: s.restartI}
+	case *supSOFO:
+		st := VerifSupState{Kind: "sofo", Shutdown: s.shutdown, ShutdownReason: s.shutdownReason,
+			Wait: verifWait(s.wait), Restarts: append([]int64{}, s.restarts...)}
+		for _, cs := range s.spec {
+			st.Spec = append(st.Spec, VerifChild{cs.Name, cs.i, cs.pid, cs.disabled, cs.Significant})
+		}
+		for pid, cs := range s.pids {
+			st.Pids = append(st.Pids, VerifChild{cs.Name, cs.i, pid, cs.disabled, cs.Significant})
+		}
+		return st
+	}
+	return VerifSupState{}
+}
